@@ -29,8 +29,13 @@ def reference(case):
             spawned += 1
             cur = "R"
 
+    waiting, ended_at = [], {}
+
     def kill():
         nonlocal cur
+        for w in waiting:
+            ended_at[w] = case["ops"][len(res)]["at"]       # the run a pending to_wait waits for ends during this op
+        waiting.clear()
         evs.append(f"kill({spawned - 1})")
         evs.append(f"reap({spawned - 1},9)")
         cur = "F:ExitSignal(ForceStop)"
@@ -66,7 +71,10 @@ def reference(case):
             if cur == "R":
                 kill()
             over = True
+        if n == "to_wait" and cur == "R":
+            waiting.append(len(res))
         res.append(not (n == "to_wait" and cur == "R"))
+    case["_ended_at"] = ended_at
     return evs, res
 
 
@@ -92,6 +100,9 @@ def monitor(case, o):
                 out.append(("C09: ticket of a completed control not resolved at the time it ran", f"op {k} {op['op']} at {op['at']}: {ws}"))
             if not r and ws[0] is not None and ws[0] == op["at"] and not o["dead"] and not any(x["at"] == op["at"] for x in ops[k + 1:]):
                 out.append(("C09_wait_for_end: resolved although a process is running", f"op {k}"))
+            if not r and k in case.get("_ended_at", {}) and ws[0] != case["_ended_at"][k]:
+                out.append(("C09_wait_for_end: the run ended but the wait-for-end ticket did not resolve at that instant",
+                            f"op {k} to_wait at {op['at']}, run ended at {case['_ended_at'][k]}, ticket {ws}"))
     return out
 
 
